@@ -469,7 +469,10 @@ class Lexer:
                     here = start
                     if not is_hex(token.replace("_", "")):
                         raise CklSyntaxError("Invalid hex literal", here)
-                    token = str(int(token.replace("_", ""), 16))
+                    try:
+                        token = str(int(token.replace("_", ""), 16))
+                    except ValueError:
+                        raise CklSyntaxError("Int literal is too long", here)
                     self.tokens.append(Token(token, "int", here))
                     token = ""
                     pos -= 1
@@ -486,9 +489,11 @@ class Lexer:
                     here = start
                     if token.replace("_", "") == "":
                         raise CklSyntaxError("Invalid binary literal", here)
-                    self.tokens.append(
-                        Token(str(int(token.replace("_", ""), 2)), "int", here)
-                    )
+                    try:
+                        token = str(int(token.replace("_", ""), 2))
+                    except ValueError:
+                        raise CklSyntaxError("Int literal is too long", here)
+                    self.tokens.append(Token(token, "int", here))
                     token = ""
                     pos -= 1
                     updatepos = False
